@@ -69,6 +69,10 @@ pub use graph::ResolutionError;
 pub use graph::ResolutionResolved;
 pub use graph::TypesDependency;
 pub use graph::WalkOptions;
+#[cfg(deno_graph_verif)]
+pub use graph::VerifParsedModule;
+#[cfg(deno_graph_verif)]
+pub use graph::verif_parse_module_source_and_info;
 pub use graph::WasmModule;
 #[cfg(feature = "fast_check")]
 pub use graph::WorkspaceFastCheckOption;
